@@ -758,6 +758,35 @@ func (p *Prog) PathCond(fn *ssa.Function, from *ssa.BasicBlock, site ssa.Instruc
 						}
 						return
 					}
+					// a nil test of a joined pointer / error whose operand on this path is nil, or non-nil, by construction
+					if bo, isB := tc.(*ssa.BinOp); isB && (bo.Op == token.EQL || bo.Op == token.NEQ) {
+						var other ssa.Value
+						if cn, isC := bo.Y.(*ssa.Const); isC && cn.IsNil() {
+							other = bo.X
+						} else if cn, isC := bo.X.(*ssa.Const); isC && cn.IsNil() {
+							other = bo.Y
+						}
+						for i := 0; i < 8 && other != nil; i++ {
+							ph, isPh := other.(*ssa.Phi)
+							if !isPh {
+								break
+							}
+							e, has := phiVal[ph]
+							if !has {
+								break
+							}
+							other = e
+						}
+						if other != nil {
+							if nn, known := p.nilness(other); known {
+								holds := nn == (bo.Op == token.NEQ)
+								if holds == want {
+									walk(s, c)
+								}
+								return
+							}
+						}
+					}
 					if hd, ok := p.helperBoolDNF(tc, want, keep, 0); ok {
 						for _, hc := range hd {
 							saved := Conj{}
@@ -1641,4 +1670,39 @@ func usesGuardedBy(v ssa.Value, flag *ssa.Phi, depth int) bool {
 		}
 	}
 	return true
+}
+
+// ReachingStores: for a read of a local variable, the values of the assignments that can reach it, and whether its
+// initial (zero) value can (ok is false when the variable is also assigned in another function).
+func (p *Prog) ReachingStores(v ssa.Value) (vals []*ssa.Store, zero bool, ok bool) {
+	ld, isL := v.(*ssa.UnOp)
+	if !isL || ld.Op != token.MUL {
+		return nil, false, false
+	}
+	al := p.addrAlloc(ld.X)
+	if al == nil {
+		return nil, false, false
+	}
+	sts := p.storesToAlloc[al]
+	fn := Host(ld.Parent())
+	var defs []ssa.Instruction
+	for _, st := range sts {
+		if Host(st.Parent()) != fn {
+			return nil, false, false
+		}
+		defs = append(defs, st)
+	}
+	for i, dd := range defs {
+		var others []ssa.Instruction
+		for j, o := range defs {
+			if j != i {
+				others = append(others, o)
+			}
+		}
+		if p.PathExists(fn, dd, Is(ld), In(others), nil) {
+			vals = append(vals, sts[i])
+		}
+	}
+	zero = al.Parent() == fn && p.PathExists(fn, nil, Is(ld), In(defs), nil)
+	return vals, zero, true
 }
